@@ -375,7 +375,8 @@ def gen_variants(rng, ntriples, start_id):
 # ------------------------------------------------------------------------------- comparison
 
 def parse_pkt(line):
-    """'pkt out=.. fin=.. pos=a b c tau=t nv=k v cell path jH jHe jX hH hHe ...' -> dict"""
+    """'pkt out=.. fin=.. pos=a b c tau=t nv=k v cell path jH jHe jX cJH cJHe cJX cHH cHHe ...' -> dict
+    (per visit: path, the three mean-intensity increments, the five counters of the cell after the packet)"""
     line = vlib.strip_branch(line)
     m = re.match(r"pkt out=(-?\d+) fin=(\d) pos=(\S+) (\S+) (\S+) tau=(\S+) nv=(\d+)(.*)$", line)
     if not m:
@@ -384,8 +385,8 @@ def parse_pkt(line):
     visits = []
     i = 0
     while i < len(rest) and rest[i] == "v":
-        visits.append((rest[i + 1], rest[i + 2:i + 8]))
-        i += 8
+        visits.append((rest[i + 1], rest[i + 2:i + 11]))
+        i += 11
     return {"out": m.group(1), "fin": m.group(2), "pos": [m.group(3), m.group(4), m.group(5)],
             "tau": m.group(6), "nv": int(m.group(7)), "visits": visits}
 
@@ -521,7 +522,10 @@ def run(ctx):
         "start position in the closed block on every axis whose index is computed from the position: 0 <= x <= extent (a position on the upper boundary belongs to the last cell: the computed index is clamped, std::min(index, n-1)); what the code did before the clamp is kept as old_code_upper_boundary_index_outside; exercised by the 'upper' stream",
         "the cast double -> int of position*inv_cell_size is modelled by a bounded search (floorUpTo), equal to the cast for 0 <= x < n+1 (larger values give n instead; no difference after the clamp to n-1)",
         "compiled configuration: HAS_HELIUM, no VARIABLE_ABUNDANCES, no USE_LOCKFREE, no SUBGRID_CELL_LOCK; assertions (cmac_assert) compiled out and not relied upon",
-        "stops_inside_iff compares with the optical depth of the whole line as accumulated by the same march without the optical depth test (marchFree), for which path_sum / segments / exit_geometric are proved as well; the harness oracle compares with an independent slab-method chord computation in long double",
+        "stops_inside_iff compares with the optical depth of the whole line as accumulated by the loop of compute_optical_depth (marchFree, now a modelled routine of the code with its own correspondence stream), for which path_sum / segments / exit geometry are proved as well (cod_spec); the harness oracle compares with an independent slab-method chord computation in long double",
+        "propagate and compute_optical_depth do not move the position onto the faces named by the entry classification: their theorems assume (StartNoPin) that the position handed over lies in the closed cell get_start_index selects; the generator hands over positions exactly on the faces, the Rat run evaluates this premise on every sampled packet",
+        "the premises of the theorems (Valid incl. the DBL_MAX magnitude condition, Start / StartNoPin) are evaluated exactly (Rat) on every sampled packet and counted in coverage.exact_run.premises_hold; a failed conclusion counts as a broken obligation only when the premises hold",
+        "counters: the model's deposit (fold of += over the visits) is compared with the real counters accumulated over all packets of a group (no reset between packets); only the five counters H, He, one further ion, heating H, heating He are in the model, the remaining ions are checked by the harness oracle (old value + increment, bit-exact)",
     ]
     # 1. regenerate the tables from the current headers (translator), then the obligations
     _, changed = gen_c02_tables.generate()
@@ -555,6 +559,7 @@ def run(ctx):
     cmp = Comparer(ops)
     nmis, impl, model, orc = ctx.correspond("march", h, vlib.driver("drv_c02"), ops, cmp=cmp,
                                             group_start=lambda op: op.startswith("blk"), oracle_key=oracle_key)
+    acc = {"visits": 0, "on_nonzero_counter": 0}
     for op, ml in zip(ops, model):
         if not op.startswith("pkt"):
             continue
@@ -570,6 +575,13 @@ def run(ctx):
             ctx.branch("gen-tau-" + m[2])
             ctx.branch("gen-block-" + m[3])
         ctx.distinct(op.rsplit(" ", 1)[0], nontrivial=bool(P) and (P["nv"] >= 2 or P["out"] == "0"))
+        if P:
+            for _, vals in P["visits"]:
+                acc["visits"] += 1
+                # the counter of the cell after the packet differs from this packet's increment:
+                # the increment landed on what an earlier packet of the group had left there
+                acc["on_nonzero_counter"] += (vals[1] != vals[4])
+    ctx.cov["counter_accumulation"] = acc
     # samples
     shown = 0
     for i, op in enumerate(ops):
@@ -704,7 +716,7 @@ def run(ctx):
                 st["conclusion_fails_outside_premises"] = st.get("conclusion_fails_outside_premises", 0) + 1
             if not op.startswith("pkt"):
                 continue
-            R = parse_pkt(re.sub(r" tie=.*$", "", re.sub(r"( v \S+ \S+)", r"\1 0 0 0 0 0", rl)))
+            R = parse_pkt(re.sub(r" tie=.*$", "", re.sub(r"( v \S+ \S+)", r"\1 0 0 0 0 0 0 0 0", rl)))
             Fm = parse_pkt(model_by_id.get(pkt_id(op), ""))
             if R and Fm:
                 same = R["out"] == Fm["out"] and [v[0] for v in R["visits"]] == [v[0] for v in Fm["visits"]]
@@ -759,6 +771,11 @@ MANIFEST = dict(
          "increments are path*sigma*w and *(nu-nu0) (estimators); INSIDE is returned iff tau_target <= optical depth of the whole line through the block "
          "(stops_inside_iff, fullTau_is_line_sum); a leaving packet gets a classification 1..26, lies exactly on the faces it names, crossing them outwards, is strictly "
          "inside on the other axes it moves along, and passes is_compatible_output_direction (exit_geometric); per-pass lemmas one_pass_leave / one_pass_stop. "
+         "All of these are corollaries of theorems about the loop from ANY admissible entry state (trav_*), which also give the same statements for propagate (propagate_*: "
+         "no pinning, no counters; propagate_eq_interact when the position already sits on the named faces) and for compute_optical_depth (cod_spec: ends outside within the fuel, "
+         "adds exactly sum(kappa*path) of the whole line, exit geometry; cod_independent_of_target; interact_stops_iff_cod: interact stops inside iff target <= what "
+         "compute_optical_depth adds). Counters: after any sequence of visits every counter is old value + sum of its increments (deposit_spec, counters_after_interact). "
+         "hyp_of_inputs reduces Hyp to conditions on the constructor and call arguments. "
          "The 27-direction tables (index rule, pinning rule, mask table, compatibility) are regenerated from the headers by exhaustive evaluation on every run and their "
          "consistency is re-proved by decide. Tie: the same definitions compiled at Float agree with the real interact() on generated packets "
          "(discrete results identical, values within 1e-10, measured bit-identical), the Rat instantiation confirms the theorem statements exactly on a sample, and "
